@@ -5,6 +5,7 @@ import itertools
 import random
 
 import cc                                             # noqa: F401 (sets sys.path, log sink)
+from twisted.internet import error           # noqa: E402
 from twisted.python import failure
 
 
@@ -121,6 +122,16 @@ def _deliver(proto, data, seg, rng):
             k = rng.randint(1, max(1, min(9, len(data) - i)))
             proto.dataReceived(data[i:i + k])
             i += k
+
+
+def _cut(noise, data):
+    """noise "cutloss<k>@end": the last k bytes of the reply never arrive (the cut falls inside the final line, at least
+    one byte of it has arrived): the connection is lost instead"""
+    if not noise.startswith("cutloss"):
+        return 0
+    k = int(noise[7:].split("@")[0])
+    last = len(data) - (data[:-2].rfind(b"\r\n") + 2 if b"\r\n" in data[:-2] else 0)     # length of the final line with its CR LF
+    return max(1, min(k, last - 1))
 
 
 def _result(res, order):
@@ -287,6 +298,7 @@ def getinfo_vector(kvs, seg="whole", rng=None, noise="none", api="dict"):
             wire.append("250-%s=%s" % (key, lines[0]))
     wire.append("250 OK")
     data = "".join(w + "\r\n" for w in wire).encode("latin-1")
+    lost = 0
     try:
         if noise == "twin@before":
             p.dataReceived(CANCELLED_REPLY)       # the busy command's answer
@@ -299,7 +311,10 @@ def getinfo_vector(kvs, seg="whole", rng=None, noise="none", api="dict"):
             other.get_info("other/key").addBoth(lambda _: None)
             other.dataReceived(b"250+other/key=\r\nforeign line 1\r\nforeign line 2\r\n.\r\n250 OK\r\n")
             data = data[cut:]
-        _deliver(p, data, seg, rng)
+        lost = _cut(noise, data)
+        _deliver(p, data[:len(data) - lost], seg, rng)
+        if lost:
+            p.connectionLost(failure.Failure(error.ConnectionDone()))
     except Exception:
         fired.append(failure.Failure())
     res = fired[0] if fired else None
@@ -309,7 +324,7 @@ def getinfo_vector(kvs, seg="whole", rng=None, noise="none", api="dict"):
         res = failure.Failure(RuntimeError("the identical request queued before this one got %r" % (twin[:1],)))
     return dict(p="C13", cmd="GETINFO", kvs=[dict(key=b(k), block=bl, lines=[b(l) for l in ls]) for k, bl, ls in kvs],
                 wire=[b(w) for w in wire], res=_result(res, [k for k, _, _ in kvs]), seg=seg, noise=noise,
-                key=[], unset=False, vals=[], api=api)
+                key=[], unset=False, vals=[], api=api, cut=(lost if noise.startswith("cutloss") else 0))
 
 
 def getconf_vector(key, unset, vals, seg="whole", rng=None, noise="none", api="dict"):
@@ -343,14 +358,17 @@ def getconf_vector(key, unset, vals, seg="whole", rng=None, noise="none", api="d
     else:
         wire = ["250%s%s=%s" % (" " if i == len(vals) - 1 else "-", key, v) for i, v in enumerate(vals)]
     data = "".join(w + "\r\n" for w in wire).encode("latin-1")
+    cut = _cut(noise, data)
     try:
-        _deliver(p, data, seg, rng)
+        _deliver(p, data[:len(data) - cut], seg, rng)
+        if cut:
+            p.connectionLost(failure.Failure(error.ConnectionDone()))
     except Exception:
         fired.append(failure.Failure())
     res = fired[0] if fired else None
     if broke is not None:
         res = broke
-    return dict(p="C13", cmd="GETCONF", key=b(key), unset=unset, vals=[b(v) for v in vals],
+    return dict(p="C13", cmd="GETCONF", key=b(key), unset=unset, vals=[b(v) for v in vals], cut=cut,
                 wire=[b(w) for w in wire], res=_result(res, [key]), seg=seg, noise=noise, kvs=[], api=api)
 
 
